@@ -5,6 +5,7 @@ import (
 	"fmt"
 	"math"
 	"strconv"
+	"strings"
 	"unsafe"
 
 	"github.com/arnodel/golua/lib/base"
@@ -138,8 +139,8 @@ OuterLoop:
 						return "", errNotEnoughValues
 					}
 					v := values[j]
-					if s, ok := quote(v); ok {
-						tmpMem += t.RequireBytes(len(s))
+					if s, mem, ok := quote(t, v); ok {
+						tmpMem += mem
 						arg = s
 						outFormat[i] = 's'
 					} else {
@@ -212,8 +213,24 @@ OuterLoop:
 }
 
 // Quote returns a string representing the value as a valid Lua literal if
-// possible, the boolean returned indicating success or failure.
-func quote(v rt.Value) (string, bool) {
+// possible, the boolean returned indicating success or failure.  It requires
+// the memory needed for the literal and returns the amount required.
+func quote(t *rt.Thread, v rt.Value) (string, uint64, bool) {
+	if s, ok := v.TryString(); ok {
+		// The literal may be much bigger than the string, so require memory
+		// before building it.
+		n := quotedLen(s)
+		mem := t.RequireBytes(n)
+		var b strings.Builder
+		b.Grow(n)
+		writeQuoted(&b, s)
+		return b.String(), mem, true
+	}
+	s, ok := quoteNonString(v)
+	return s, t.RequireBytes(len(s)), ok
+}
+
+func quoteNonString(v rt.Value) (string, bool) {
 	if v.IsNil() {
 		return "nil", true
 	}
@@ -237,9 +254,56 @@ func quote(v rt.Value) (string, bool) {
 		return strconv.FormatFloat(x, 'g', -1, 64), true
 	case rt.BoolType:
 		return strconv.FormatBool(v.AsBool()), true
-	case rt.StringType:
-		return strconv.Quote(v.AsString()), true // An approximation
 	default:
 		return "", false
 	}
+}
+
+// isCntrl returns true if c is a control character (like C's iscntrl).
+func isCntrl(c byte) bool {
+	return c < ' ' || c == 0x7f
+}
+
+// writeQuoted writes to b a Lua literal string with value s (delimited with
+// double quotes).  Like in C Lua, double quotes, backslashes and newlines are
+// escaped with a backslash, control characters are written as decimal escapes
+// and all other bytes are copied unchanged.
+func writeQuoted(b *strings.Builder, s string) {
+	b.WriteByte('"')
+	for i := 0; i < len(s); i++ {
+		switch c := s[i]; {
+		case c == '"' || c == '\\' || c == '\n':
+			b.WriteByte('\\')
+			b.WriteByte(c)
+		case !isCntrl(c):
+			b.WriteByte(c)
+		case i+1 < len(s) && s[i+1] >= '0' && s[i+1] <= '9':
+			// Use 3 digits so the next character is not part of the escape
+			b.WriteByte('\\')
+			b.WriteString(strconv.Itoa(1000 + int(c))[1:])
+		default:
+			b.WriteByte('\\')
+			b.WriteString(strconv.Itoa(int(c)))
+		}
+	}
+	b.WriteByte('"')
+}
+
+// quotedLen returns the length of the literal writeQuoted produces for s.
+func quotedLen(s string) int {
+	n := len(s) + 2
+	for i := 0; i < len(s); i++ {
+		switch c := s[i]; {
+		case c == '"' || c == '\\' || c == '\n':
+			n++
+		case !isCntrl(c):
+		case i+1 < len(s) && s[i+1] >= '0' && s[i+1] <= '9' || c >= 100:
+			n += 3
+		case c >= 10:
+			n += 2
+		default:
+			n++
+		}
+	}
+	return n
 }
